@@ -137,6 +137,7 @@ def worker_init(repo):
     from . import nodes  # noqa
 
 
+@core.safe_worker
 def replay_chunk(lines):
     out = {"n": 0, "same": 0, "attention": [], "dropped": 0, "own_drift": 0}
     for line in lines:
